@@ -335,6 +335,22 @@ def run(ctx):
     phase["names"] = round(time.time() - t0, 1)
     ctx.cov["phase_seconds"] = phase
 
+    # ---------------------------------------------------------------- BP election snapshots (consensus/impl/dpos/bp)
+    t0 = time.time()
+    rc, log, bpbin = ctx.go_test_binary("consensus/impl/dpos/bp", [os.path.join(vf.HARNESS, "engines/gov/zz_verif_bp_engine_test.go")], "bp.test", use_overlay=False)
+    if rc != 0:
+        raise RuntimeError("bp engine build failed:\n" + log[-3000:])
+    bscs = [json.load(open(p)) for p in sorted(glob.glob(os.path.join(ctx.verif, "corpus", "C15", "bp", "*.json")))]
+    bscs += [G.gen_bp_scenario(ctx.rng, directed=(i % 2 == 0)) for i in range(12 if quick else 400)]
+    bouts = run_engine(ctx, bpbin, "TestVerifBpEngine", bscs, "bp")
+    for sc, o in zip(bscs, bouts):
+        if o.get("fatal"):
+            raise RuntimeError("bp engine: scenario failed: %s\n%s" % (o["fatal"][:1500], json.dumps(sc)[:1500]))
+        G.bp_predicates(sc, o["dumps"], fails)
+        steps += len(sc["ops"])
+        nontriv.update(("bp", op["op"], d["best"] // 100, d["live"] == o["dumps"][0]["live"]) for op, d in zip(sc["ops"], o["dumps"][1:]))
+    phase["bp_snapshots"] = round(time.time() - t0, 1)
+
     # ---------------------------------------------------------------- F19: plain transfer to aergo.system (real block executor)
     t0 = time.time()
     import g8determ as D
@@ -372,7 +388,7 @@ def run(ctx):
     ctx.cov["distinct_nontrivial"] = len(nontriv)
     ctx.cov["rule"] = ("one evaluation = one governance operation executed by the real code and by the model with every observable compared; "
                        "distinct = distinct (operation, outcome class, number of stakers, number of non-empty rankings) tuples reached")
-    ctx.cov["input_distribution"] = {"scenarios": len(scs), "corpus": ncorpus, "outcomes": hist, "name_scenarios": len(nscs), "name_outcomes": nerrs,
+    ctx.cov["input_distribution"] = {"scenarios": len(scs), "corpus": ncorpus, "outcomes": hist, "name_scenarios": len(nscs), "name_outcomes": nerrs, "bp_scenarios": len(bscs),
                                      "ops": {k: sum(1 for sc in scs for o in sc["ops"] if o["op"] == k) for k in ("stake", "unstake", "votebp", "votedao", "block", "reload")}}
     for sc, o in list(zip(scs, outs))[:2]:
         ctx.sample({"ops": sc["ops"][:6], "last_dump": {k: o["dumps"][-1][k] for k in ("total", "sysbal", "pcur")}})
